@@ -31,7 +31,7 @@ theorem mapE_length {α β} {f : α → Except Err β} : ∀ {l : List α} {bs :
     simp [mapE_length ht]
 
 theorem mapE_getElem? {α β} {f : α → Except Err β} : ∀ {l : List α} {bs : List β},
-    mapE f l = .ok bs → ∀ i a, l[i]? = some a → ∃ b, bs[i]? = some b ∧ f a = .ok b
+    mapE f l = .ok bs → ∀ (i : ℕ) (a : α), l[i]? = some a → ∃ b, bs[i]? = some b ∧ f a = .ok b
   | [], _, _, i, a, hi => by simp at hi
   | x :: t, bs, h, i, a, hi => by
     obtain ⟨b, bt, hb, ht, rfl⟩ := mapE_ok_cons h
@@ -72,9 +72,9 @@ theorem indexLoop_length : ∀ (col seen : List Char), (indexLoop col seen).leng
 /-- invariant of `get_haplotype_snv_indices`' dict loop -/
 theorem indexLoop_spec : ∀ (col seen : List Char), seen.Nodup →
     (firstAppearFrom col seen).Nodup ∧ seen <+: firstAppearFrom col seen ∧
-    (∀ h c, col[h]? = some c →
+    (∀ (h : ℕ) (c : Char), col[h]? = some c →
       ∃ i, (indexLoop col seen)[h]? = some i ∧ (firstAppearFrom col seen)[i]? = some c) ∧
-    (∀ h i a, (indexLoop col seen)[h]? = some i → a < i →
+    (∀ (h i a : ℕ), (indexLoop col seen)[h]? = some i → a < i →
       a < seen.length ∨ ∃ h', h' < h ∧ (indexLoop col seen)[h']? = some a)
   | [], seen, hnd => by
     simp [firstAppearFrom, indexLoop, hnd]
@@ -82,8 +82,10 @@ theorem indexLoop_spec : ∀ (col seen : List Char), seen.Nodup →
     by_cases hc : seen.contains c = true
     · have hmem : c ∈ seen := List.contains_iff_mem.mp hc
       obtain ⟨h1, h2, h3, h4⟩ := indexLoop_spec cs seen hnd
-      have hfa : firstAppearFrom (c :: cs) seen = firstAppearFrom cs seen := by simp [firstAppearFrom, hc]
-      have hil : indexLoop (c :: cs) seen = seen.idxOf c :: indexLoop cs seen := by simp [indexLoop, hc]
+      have hfa : firstAppearFrom (c :: cs) seen = firstAppearFrom cs seen := by
+        rw [firstAppearFrom, if_pos hc]
+      have hil : indexLoop (c :: cs) seen = seen.idxOf c :: indexLoop cs seen := by
+        rw [indexLoop, if_pos hc]
       rw [hfa, hil]
       refine ⟨h1, h2, ?_, ?_⟩
       · intro h ch hh
@@ -114,9 +116,9 @@ theorem indexLoop_spec : ∀ (col seen : List Char), seen.Nodup →
         exact fun e => hnm (e ▸ ha)
       obtain ⟨h1, h2, h3, h4⟩ := indexLoop_spec cs (seen ++ [c]) hnd'
       have hfa : firstAppearFrom (c :: cs) seen = firstAppearFrom cs (seen ++ [c]) := by
-        simp [firstAppearFrom, hc]
+        rw [firstAppearFrom, if_neg hc]
       have hil : indexLoop (c :: cs) seen = seen.length :: indexLoop cs (seen ++ [c]) := by
-        simp [indexLoop, hc]
+        rw [indexLoop, if_neg hc]
       rw [hfa, hil]
       have hpre : seen <+: firstAppearFrom cs (seen ++ [c]) :=
         (List.prefix_append seen [c]).trans h2
@@ -185,7 +187,8 @@ theorem sum_marginal (siteIdx : List ℕ) (counts : List α) (N : ℕ)
     ((List.range N).map (fun a => marginal siteIdx counts a)).sum =
       ((siteIdx.zip counts).map Prod.snd).sum := by
   simp only [marginal_eq_sum]
-  induction siteIdx.zip counts with
+  generalize siteIdx.zip counts = l at h ⊢
+  induction l with
   | nil => simp
   | cons x t ih =>
     have hx : x.1 < N := h x (by simp)
